@@ -29,6 +29,23 @@ class Unit:
     def body(self, path):
         return self.bodies.get(path)
 
+    def closure_of_type(self, ty):
+        """closure body path for a type string like `&{closure@file:l:c: l:c}`"""
+        m = getattr(self, '_cbt', None)
+        if m is None:
+            m = {}
+            for b in self.bodies.values():
+                for blk in b.blocks:
+                    for s in blk['stmts']:
+                        rv = s['rv']
+                        if rv['k'] == 'agg' and rv.get('ak') == 'closure' and not s['p'][1]:
+                            m[b.local_ty(s['p'][0])] = rv['def']
+            self._cbt = m
+        t = ty
+        while t.startswith('&'):
+            t = t[1:].replace('mut ', '', 1).strip()
+        return m.get(t)
+
     def find(self, regex):
         r = re.compile(regex)
         return [b for p, b in self.bodies.items() if r.search(p)]
